@@ -35,6 +35,10 @@ func (c *prefixChooser) Choose(p *vsched.PointInfo) int {
 	return 0
 }
 
+// NewPrefixChooser replays a recorded schedule (list of choice indexes) and
+// takes the default choice afterwards.
+func NewPrefixChooser(prefix []int) vsched.Chooser { return &prefixChooser{prefix: prefix} }
+
 type ExploreStats struct {
 	Executions  int
 	MaxChoices  int
